@@ -168,3 +168,8 @@ def run(chk, replay):
         chk.traces += 1
         if v:
             chk.violation(sigs, v, {"sc": sc, "cfgseed": cfgseed, "sigs": sigs})
+    # code -> spec: longer pipelines over all writers and both readers on large generated inputs and the assets; every step is
+    # judged by OpTrace.tla on the state the earlier steps really left on disk
+    from harness import optrace
+    optrace.phase(chk, ["strain", "combine", "cook", "read", "iter"], "pipelines on large inputs", 80, 800,
+                  assets=["example_plt_3d", "plt1_Y", "plt2_F"], nops=6)
